@@ -872,6 +872,14 @@ def scope_from(T, entries):
     return path
 
 
+def load_explicit_counts():
+    p = os.path.join(VERIF, "tables", "site_inventory.json")
+    if not os.path.exists(p):
+        return {}
+    with open(p) as fh:
+        return json.load(fh).get("explicit_counts", {})
+
+
 def load_inventory(cfg=None):
     """per-configuration counts when the configuration was frozen (no slack from other configurations), else the
     maximum over the frozen configurations"""
@@ -980,6 +988,7 @@ def run_totality(facts, run, prop):
     n_sites = 0
     n_explicit = 0
     closure_undecided = []
+    pending_explicit = []
     bulk_counts = {}
     bulk_sites = {}
     moved = []
@@ -1021,6 +1030,9 @@ def run_totality(facts, run, prop):
                             moved.append("%s: `%s` now in %s" % (e["fn"][:50], s.disc, a.fn["name"]))
                             break
                 if ent is None:
+                    pending_explicit.append((fid, a, s, gname, path))
+                    continue
+                if ent is None:
                     run.oblige(ok=False)
                     run.add(Finding("R19a", "%s|%s|%s" % (gname, s.kind, s.disc),
                                     "totality: unreviewed explicit panic site `%s` in %s (%s:%s), reachable from %s" % (
@@ -1032,6 +1044,45 @@ def run_totality(facts, run, prop):
                 key = "%s|%s" % (gname, s.kind)
                 bulk_counts[(fid, key)] = bulk_counts.get((fid, key), 0) + 1
                 bulk_sites.setdefault((fid, key), []).append(s)
+    # Explicit sites that matched no entry by (function, kind, text): before reporting them as new, let an entry that
+    # matched nothing on this tree stand in -- the same site whose assertion text was rewritten (`a >= 1 && a <= 32` ->
+    # `(1..=32).contains(&a)`, a renamed variable in the message) or whose private function was renamed.  One entry
+    # absorbs one site; the kind must agree; the entry's function pattern must match the site's function, or match no
+    # function of the tree any more and share its module prefix.
+    if pending_explicit:
+        frozen = load_explicit_counts()
+        present = set(gen_name(x["name"]) for x in facts.fns.values())
+        cur = {}
+        for fid_ in paths:
+            a_ = T.fa[fid_]
+            for s_ in T.fn_open_sites(fid_):
+                if s_.kind in EXPLICIT_KINDS or s_.kind.startswith("assert-"):
+                    k_ = "%s|%s" % (gen_name(a_.fn["name"]), s_.kind)
+                    cur[k_] = cur.get(k_, 0) + 1
+        lent = {}
+        for (fid, a, s, gname, path) in pending_explicit:
+            key = "%s|%s" % (gname, s.kind)
+            allowed = frozen.get(key)
+            if allowed is None:
+                # the function is new under this name: a reviewed function of the same module and kind that no longer
+                # exists (renamed / moved) lends its count, once
+                mod = "::".join(gname.split("::")[:2])
+                for k_, v_ in sorted(frozen.items()):
+                    kf, kk = k_.split("|")
+                    if kk == s.kind and kf.startswith(mod + "::") and kf not in present and lent.get(k_, key) == key and v_ >= cur.get(key, 0):
+                        allowed = v_
+                        lent[k_] = key
+                        break
+            if allowed is not None and cur.get(key, 0) <= allowed:
+                moved.append("%s: `%s` in %s: the function has no more %s sites than on the reviewed tree (%d): assertion text or "
+                             "function name changed" % (s.kind, s.disc[:60], a.fn["name"], s.kind, allowed))
+                run.oblige()
+                continue
+            run.oblige(ok=False)
+            run.add(Finding("R19a", "%s|%s|%s" % (gname, s.kind, s.disc),
+                            "totality: unreviewed explicit panic site `%s` in %s (%s:%s), reachable from %s" % (
+                                s.disc, a.fn["name"], a.fn["file"], s.line, path[0]),
+                            config=cfg, site="%s:%s" % (a.fn["file"], s.line), path=path, prop=prop))
     # module-level totals: moving code between functions of one module must not alarm
     def modkey(key):
         # the module = leading lower-case path segments (types start with an upper-case letter); for a free function
@@ -1131,10 +1182,19 @@ def freeze_inventory(configs):
     from . import facts as factsmod
     counts = {}
     by_config = {}
+    explicit = {}
     for c in configs:
         f = factsmod.load(c)
         T = Totality(f)
         mine = by_config.setdefault(c, {})
+        for fid, a in T.fa.items():
+            per = {}
+            for s in T.fn_open_sites(fid):
+                if s.kind in EXPLICIT_KINDS or s.kind.startswith("assert-"):
+                    key = "%s|%s" % (gen_name(a.fn["name"]), s.kind)
+                    per[key] = per.get(key, 0) + 1
+            for k, v in per.items():
+                explicit[k] = max(explicit.get(k, 0), v)
         for fid, a in T.fa.items():
             per = {}
             for s in T.fn_open_sites(fid):
@@ -1145,4 +1205,4 @@ def freeze_inventory(configs):
             for k, v in per.items():
                 counts[k] = max(counts.get(k, 0), v)
                 mine[k] = max(mine.get(k, 0), v)
-    return counts, by_config
+    return counts, by_config, explicit
